@@ -45,6 +45,11 @@ func joinEnv(a, b constEnv) constEnv {
 
 type constEval struct {
 	info *types.Info
+	// input answers for expressions that denote the translation's input (nil: none)
+	input func(ast.Expr) (string, bool)
+	// body resolves a called function to its declaration and type information (nil: calls are opaque)
+	body  func(*types.Func) (*ast.FuncDecl, *types.Info)
+	depth int
 	// maps holds lookup tables (map literals with constant keys and values that are never written afterwards)
 	maps map[types.Object]map[string]string
 }
@@ -166,7 +171,78 @@ func (ce *constEval) val(x ast.Expr, env constEnv) string {
 	} else if found == 0 {
 		return ""
 	}
+	if ce.input != nil {
+		if v, ok := ce.input(x); ok {
+			return v
+		}
+	}
+	if call, ok := x.(*ast.CallExpr); ok && ce.body != nil && ce.depth < 3 {
+		return ce.call(call, env)
+	}
 	return cvUnknown
+}
+
+// call evaluates a call of a module function with one result by running its body on the argument values.
+func (ce *constEval) call(call *ast.CallExpr, env constEnv) string {
+	var fn *types.Func
+	switch f := ast.Unparen(call.Fun).(type) {
+	case *ast.Ident:
+		fn, _ = ce.info.ObjectOf(f).(*types.Func)
+	case *ast.SelectorExpr:
+		fn, _ = ce.info.ObjectOf(f.Sel).(*types.Func)
+	}
+	if fn == nil {
+		return cvUnknown
+	}
+	decl, info := ce.body(fn)
+	if decl == nil || decl.Body == nil || decl.Type.Results == nil || len(decl.Type.Results.List) != 1 {
+		return cvUnknown
+	}
+	inner := constEnv{}
+	i := 0
+	for _, fld := range decl.Type.Params.List {
+		for _, nm := range fld.Names {
+			if i < len(call.Args) {
+				inner[nm.Name] = ce.val(call.Args[i], env)
+			}
+			i++
+		}
+	}
+	if i != len(call.Args) {
+		return cvUnknown
+	}
+	sub := &constEval{info: info, maps: ce.maps, body: ce.body, depth: ce.depth + 1}
+	out, _ := sub.stmts(decl.Body.List, inner)
+	if v, ok := out["<return>"]; ok {
+		return v
+	}
+	if names := decl.Type.Results.List[0].Names; len(names) == 1 {
+		if v, ok := out[names[0].Name]; ok {
+			return v
+		}
+	}
+	return cvUnknown
+}
+
+// literalFields records x.K = v for the keyed fields of a struct literal assigned to x.
+func (ce *constEval) literalFields(lhs string, rhs ast.Expr, env constEnv) {
+	rhs = ast.Unparen(rhs)
+	if u, ok := rhs.(*ast.UnaryExpr); ok && u.Op == token.AND {
+		rhs = ast.Unparen(u.X)
+	}
+	cl, ok := rhs.(*ast.CompositeLit)
+	if !ok {
+		return
+	}
+	for _, el := range cl.Elts {
+		if kv, ok := el.(*ast.KeyValueExpr); ok {
+			if k, ok := kv.Key.(*ast.Ident); ok {
+				if v := ce.val(kv.Value, env); v != cvUnknown {
+					env[lhs+"."+k.Name] = v
+				}
+			}
+		}
+	}
 }
 
 // cond: 1 true, 0 false, -1 unknown
@@ -218,16 +294,31 @@ func (ce *constEval) cond(x ast.Expr, env constEnv) int {
 	return -1
 }
 
-// stmts evaluates the list; done reports that a return / break / continue ended it.
-func (ce *constEval) stmts(list []ast.Stmt, env constEnv) (constEnv, bool) {
+// how a statement list ended
+const (
+	ceFell   = 0 // ran off the end
+	ceBranch = 1 // break / continue
+	ceReturn = 2
+)
+
+// stmts evaluates the list and reports how it ended.
+func (ce *constEval) stmts(list []ast.Stmt, env constEnv) (constEnv, int) {
 	for _, st := range list {
-		var done bool
+		var done int
 		env, done = ce.stmt(st, env)
-		if done {
-			return env, true
+		if done != ceFell {
+			return env, done
 		}
 	}
-	return env, false
+	return env, ceFell
+}
+
+// inner maps the end of a switch / once-loop body to the end of the statement: a branch is consumed, a return is not.
+func inner(done int) int {
+	if done == ceReturn {
+		return ceReturn
+	}
+	return ceFell
 }
 
 func (ce *constEval) assign(lhs, rhs ast.Expr, env constEnv) {
@@ -242,7 +333,7 @@ func (ce *constEval) assign(lhs, rhs ast.Expr, env constEnv) {
 	env[key] = ce.val(rhs, env)
 }
 
-func (ce *constEval) stmt(st ast.Stmt, env constEnv) (constEnv, bool) {
+func (ce *constEval) stmt(st ast.Stmt, env constEnv) (constEnv, int) {
 	switch t := st.(type) {
 	case *ast.AssignStmt:
 		if len(t.Lhs) == len(t.Rhs) && (t.Tok == token.ASSIGN || t.Tok == token.DEFINE) {
@@ -253,6 +344,7 @@ func (ce *constEval) stmt(st ast.Stmt, env constEnv) (constEnv, bool) {
 			for i, l := range t.Lhs {
 				if k := exprString(ast.Unparen(l)); k != "_" {
 					env[k] = vals[i]
+					ce.literalFields(k, t.Rhs[i], env)
 				}
 			}
 		} else if len(t.Lhs) == 2 && len(t.Rhs) == 1 {
@@ -281,6 +373,7 @@ func (ce *constEval) stmt(st ast.Stmt, env constEnv) (constEnv, bool) {
 					for i, nm := range vs.Names {
 						if i < len(vs.Values) {
 							env[nm.Name] = ce.val(vs.Values[i], env)
+							ce.literalFields(nm.Name, vs.Values[i], env)
 						} else {
 							env[nm.Name] = ""
 						}
@@ -303,14 +396,20 @@ func (ce *constEval) stmt(st ast.Stmt, env constEnv) (constEnv, bool) {
 			if t.Else != nil {
 				return ce.stmt(t.Else, env)
 			}
-			return env, false
+			return env, ceFell
 		default:
 			a, da := ce.stmts(t.Body.List, env.clone())
-			b, db := env.clone(), false
+			b, db := env.clone(), ceFell
 			if t.Else != nil {
 				b, db = ce.stmt(t.Else, b)
 			}
-			return joinEnv(a, b), da && db
+			j := joinEnv(a, b)
+			if da != db {
+				// one side left, the other goes on: nothing assigned on either side is known afterwards
+				// (the unknown return value is sticky, see ReturnStmt)
+				return j, ceFell
+			}
+			return j, da
 		}
 	case *ast.SwitchStmt:
 		if t.Init != nil {
@@ -338,8 +437,8 @@ func (ce *constEval) stmt(st ast.Stmt, env constEnv) (constEnv, bool) {
 					r = ce.cond(x, env)
 				}
 				if r == 1 && !unknown {
-					e2, _ := ce.stmts(cl.Body, env)
-					return e2, false
+					e2, d := ce.stmts(cl.Body, env)
+					return e2, inner(d)
 				}
 				if r == -1 {
 					unknown = true
@@ -353,25 +452,25 @@ func (ce *constEval) stmt(st ast.Stmt, env constEnv) (constEnv, bool) {
 				e2, _ := ce.stmts(cc.(*ast.CaseClause).Body, env.clone())
 				out = joinEnv(out, e2)
 			}
-			return out, false
+			return out, ceFell
 		}
 		if deflt != nil {
-			e2, _ := ce.stmts(deflt.Body, env)
-			return e2, false
+			e2, d := ce.stmts(deflt.Body, env)
+			return e2, inner(d)
 		}
 	case *ast.ForStmt:
 		// the once-loop of an expanded helper runs its body once; other loops are not followed
 		if t.Cond == nil && t.Init == nil && t.Post == nil {
-			e2, _ := ce.stmts(t.Body.List, env)
-			return e2, false
+			e2, d := ce.stmts(t.Body.List, env)
+			return e2, inner(d)
 		}
 	case *ast.BranchStmt:
-		return env, true
+		return env, ceBranch
 	case *ast.ReturnStmt:
-		if len(t.Results) == 1 {
+		if len(t.Results) == 1 && env["<return>"] != cvUnknown {
 			env["<return>"] = ce.val(t.Results[0], env)
 		}
-		return env, true
+		return env, ceReturn
 	}
-	return env, false
+	return env, ceFell
 }
